@@ -141,7 +141,17 @@ func TestTransportWideNumbersGapFree(t *testing.T) {
 				s.id = uint8(rapid.IntRange(1, 14).Draw(t, "extID")) //nolint:gosec
 				info.RTPHeaderExtensions = []interceptor.RTPHeaderExtension{{URI: "urn:other", ID: 15}, {URI: transportCCURI, ID: int(s.id)}}
 				s.sink = &recordingWriter{extID: s.id, failEvery: rapid.SampledFrom([]int{0, 0, 2, 7, 97}).Draw(t, "failEvery")}
+				var earlier *interceptor.StreamInfo
+				if rapid.IntRange(0, 2).Draw(t, "boundBefore") == 0 {
+					// a renegotiation: the stream had an earlier binding (same SSRC, its own StreamInfo) which is removed after the new one
+					// was made; the live binding keeps its extension
+					earlier = &interceptor.StreamInfo{SSRC: info.SSRC, RTPHeaderExtensions: info.RTPHeaderExtensions}
+					_ = ic.BindLocalStream(earlier, &recordingWriter{extID: s.id})
+				}
 				s.w = ic.BindLocalStream(info, s.sink)
+				if earlier != nil {
+					ic.UnbindLocalStream(earlier)
+				}
 			} else {
 				info.RTPHeaderExtensions = []interceptor.RTPHeaderExtension{{URI: "urn:other", ID: 3}}
 				s.sink = &recordingWriter{}
